@@ -212,9 +212,21 @@ impl Prop for C01 {
                         cc.stats().count("lp_solver_failed");
                     }
                     Err((sig, what)) => {
+                        // Root-cause class of one known finding: the compiler materialises a place
+                        // operand (variable / member path) only when the enclosing value is built, so
+                        // `(v, { v = 0; 2 })` sees the later assignment - evaluation is not left to
+                        // right there. Decided on the program's IR, not on the symptom.
+                        if sig == "result-mismatch" && prog::lazy_read_hazard(&case.program) {
+                            let mut a = art(&cfg);
+                            a["class"] = json!("lazy-read");
+                            return Verdict::fail("result-mismatch:place-operand-read-after-sibling-assignment", what, a);
+                        }
                         return Verdict::fail(sig, what, art(&cfg));
                     }
                 }
+            }
+            if prog::lazy_read_hazard(&case.program) {
+                cc.stats().count("programs_with_place_operand_before_sibling_assignment");
             }
             let st = cc.stats();
             st.count("programs_judged");
@@ -313,6 +325,9 @@ pub fn replay_source(artefact: &Value) -> Verdict {
             Ok(e) => {
                 if let (Some(o), Some(exp)) = (observed(&e), artefact["expected"].get(i).and_then(|x| x.as_str())) {
                     if exp != "Unknown" && fmt_outcome(&o) != exp {
+                        if artefact["class"].as_str() == Some("lazy-read") {
+                            return Verdict::fail("result-mismatch:place-operand-read-after-sibling-assignment", format!("compiled program gives {} but the recorded reference outcome is {exp}", fmt_outcome(&o)), artefact.clone());
+                        }
                         return Verdict::fail("result-mismatch", format!("compiled program gives {} but the recorded reference outcome is {exp}", fmt_outcome(&o)), artefact.clone());
                     }
                 }
